@@ -62,16 +62,13 @@ For each refactoring k = 1..6 write into {out}/k/ :
 Leave the worktree clean (git checkout -- .) when you are done. Final answer: one line per refactoring.
 '''
 
-KINDS = ('This time prefer kinds of transformation such as: `x in (a, b)` rewritten as `x == a or x == b` (or the reverse), '
-         'str.startswith / endswith rewritten as a slice comparison (or the reverse), attribute look-ups that are repeated '
-         'cached in a local name, a nested function moved to module level or turned into a (static) method with its free '
-         'variables passed as parameters, a method split into two methods, `for ... else`, enumerate / zip instead of index '
-         'arithmetic, a dict / set comprehension, a conditional expression turned into if / else statements, several return '
-         'statements merged into one (or one split into several), a flag variable replaced by early exits, an accumulator '
-         'list replaced by a generator + list(), `+=` on lists replaced by extend / append, a sequence of ifs turned into '
-         'a loop over a small literal table, a chained comparison, a lambda turned into a def, default values computed '
-         'inside the function instead of in the signature (only where equivalent), a local helper inlined at its single '
-         'call site.')
+KINDS = ('This time prefer kinds of transformation such as: a while loop rewritten as a for loop (or the reverse), '
+         'early `continue` / guard clauses instead of nested ifs (or the reverse), the walrus operator, any() / all() / next() '
+         'instead of a search loop (or the reverse), dict.get / setdefault / `in` tests rewritten, tuple unpacking, chained '
+         'comparisons, De Morgan, `not a < b` for `a >= b`, str.format / f-strings for concatenation, a comprehension '
+         'unrolled into a loop with append (or the reverse), reordering of independent statements, an if/elif chain '
+         'whose branches all return turned into separate ifs (or the reverse), a result variable instead of several returns '
+         '(or the reverse), slices written with explicit len(), `x[-1:]` / `x[:1]` instead of an emptiness test plus index.')
 
 NEUTRAL_JOBS = {
     'N7': ('yalafi/parser.py',
